@@ -98,6 +98,7 @@ type Stats struct {
 	extra     map[string]any
 	sets      map[string]map[string]struct{}
 	violation int64
+	counted   int64 // non-trivial cases that are distinct by construction (exhaustive enumerations)
 }
 
 func NewStats(property, part string) *Stats {
@@ -147,6 +148,14 @@ func (s *Stats) EvalN(n int64) {
 func (s *Stats) NonTrivial(h uint64) {
 	s.mu.Lock()
 	s.nontriv[h] = struct{}{}
+	s.mu.Unlock()
+}
+
+// NonTrivialN counts n non-trivial cases that are pairwise distinct by construction
+// (used by exhaustive enumerations, where keeping one hash per case would need gigabytes).
+func (s *Stats) NonTrivialN(n int64) {
+	s.mu.Lock()
+	s.counted += n
 	s.mu.Unlock()
 }
 
@@ -232,7 +241,7 @@ func (s *Stats) Flush() {
 	}
 	out := map[string]any{
 		"property": s.Property, "part": s.Part, "shard": shard(), "evaluations": s.evals,
-		"nontrivial_local": len(s.nontriv), "classes": s.classes, "excluded_known_findings": s.excluded,
+		"nontrivial_local": len(s.nontriv), "nontrivial_counted": s.counted, "classes": s.classes, "excluded_known_findings": s.excluded,
 		"samples": samples, "extra": s.extra, "cover": sets,
 	}
 	b, _ := json.MarshalIndent(out, "", " ")
